@@ -42,7 +42,7 @@ pub fn expand(assert: &AssertStruct) -> TokenStream {
             // Suppress clippy warnings that are expected in macro-generated code
             #[allow(unused_assignments, clippy::neg_cmp_op_on_partial_ord, clippy::op_ref, clippy::zero_prefixed_literal, clippy::bool_comparison, clippy::redundant_pattern_matching, clippy::useless_asref)]
             let __assert_struct_result = {
-                use std::convert::AsRef;
+                use std::convert::AsRef as _;
 
                 // Generate all node constants
                 #(#node_constants)*
@@ -633,7 +633,7 @@ fn expand_regex_assertion(value_expr: &TokenStream, pattern: &PatternRegex) -> T
 
     quote_spanned! {span=>
         {
-            use ::assert_struct::Like;
+            use ::assert_struct::Like as _;
             let __assert_struct_re = ::assert_struct::__macro_support::Regex::new(#pattern_str)
                 .expect(concat!("Invalid regex pattern: ", #pattern_str));
             if !(#value_expr).like(&__assert_struct_re) {
@@ -655,7 +655,7 @@ fn expand_like_assertion(value_expr: &TokenStream, pattern: &PatternLike) -> Tok
 
     quote_spanned! {span=>
         {
-            use ::assert_struct::Like;
+            use ::assert_struct::Like as _;
             if !(#value_expr).like(&#pattern_expr) {
                 #error_push
             }
